@@ -576,6 +576,11 @@ namespace via
       bool valid() const noexcept
       { return valid_; }
 
+      /// Accessor for the fail flag.
+      /// @return true if the response line or a header line failed validation.
+      bool fail() const noexcept
+      { return response_ln::fail() || headers_.fail(); }
+
       /// Whether the connection should be kept alive.
       /// I.e. if the response is HTTP 1.1 and there is not a connection: close
       /// header field.
@@ -893,7 +898,7 @@ namespace via
           if (!chunk_.parse(iter, end))
           {
             // if a parsing error (not run out of data)
-            if (iter != end)
+            if ((iter != end) || chunk_.fail())
             {
               clear();
               return Rx::INVALID;
